@@ -162,3 +162,16 @@ def debruijn(alphabet, n):
     db(1, 1)
     seq = seq + seq[: n - 1]
     return [alphabet[i] for i in seq]
+
+
+def xl(alphabet, n=12345, order=4):
+    """a very long series (default 12345 points): de Bruijn blocks, each block rotated differently, so that every
+    local pattern occurs at many different absolute positions (size-keyed fast paths, chunk boundaries)"""
+    base = debruijn(tuple(alphabet), order)
+    out = []
+    k = 0
+    while len(out) < n:
+        r = (k * 37) % len(base)
+        out.extend(base[r:] + base[:r])
+        k += 1
+    return out[:n]
